@@ -627,8 +627,12 @@ def jobs(tier):
     add('sweep_state_job', 'compiled-vs-python-sweep-from-arbitrary-state[n=2, C01=0]', n=2, pattern=[[1, 0], [1, 1]])
     add('sweep_state_job', 'compiled-vs-python-sweep-from-arbitrary-state[n=2, C10=0]', n=2, pattern=[[1, 1], [0, 1]])
     if not q:
+        # two attempts the solvers do not finish (bit-precise fp32 final block; whole-sweep equivalence at n=2): bounded to 10
+        # minutes each and reported INCONCLUSIVE - they are listed so that a faster solver would pick them up
         add('tail_fp_job', 'final-block-FP32[n=2]', n=2, model='fp32')
         add('sweep_equiv_job', 'compiled-vs-python-sweep[n=2]', n=2)
+        for jb in J[-2:]:
+            jb['deadline_s'] = 600
     # the bounded whole-function run (TypeError / assertion regressions, stochasticity, detailed balance) lives in C04's mle job
     J.append(dict(module='harness.C04', func='mle_job', name='mle[n=2,max_iter=1,tol=inf]', kwargs=dict(n=2, max_iter=1, tol=float('inf')),
                   sig_prefix='mle', deadline_s=280 if q else 1700, timeout_ms=60000 if q else 300000, tol=1e-5))
